@@ -65,7 +65,9 @@ func (p *Producer) UnmarshalJSON(b []byte) error {
 		TopologyRegion:   r.TopologyRegion,
 	}
 	for i, t := range r.Topics {
-		p.Topics = append(p.Topics, ProducerTopic{Topic: t, Tombstoned: r.Tombstoned[i]})
+		// tolerate a "tombstones" array shorter than "topics" (inconsistent upstream)
+		tombstoned := i < len(r.Tombstoned) && r.Tombstoned[i]
+		p.Topics = append(p.Topics, ProducerTopic{Topic: t, Tombstoned: tombstoned})
 	}
 	version, err := semver.Parse(p.Version)
 	if err != nil {
